@@ -158,10 +158,15 @@ class Program:
                 tgt = c.get("resolved") or c.get("path")
                 if tgt in self.bodies:
                     continue
+                fmt_like = re.search(r"fmt|to_string|format|unwrap|expect|panic|assert|print|write|Debug|Display", tgt or "") is not None
                 for g in (c.get("generics") or []) + [c.get("impl_self") or ""]:
                     for ty in path_re.findall(g):
                         if ty in trait_impls:
-                            E[p] |= trait_impls[ty]
+                            for q in trait_impls[ty]:
+                                tr = self.bodies[q].get("impl_trait") or ""
+                                if re.search(r"fmt::(Display|Debug)", tr) and not fmt_like:
+                                    continue
+                                E[p].add(q)
         self._edges = E
         return E
 
@@ -686,9 +691,10 @@ class Expr:
       ('discr', e)  ('phi', (e, ...))  ('deep',)  ('unknown', why)
     references are transparent (&x == x)."""
 
-    def __init__(self, prog, path, max_depth=14):
+    def __init__(self, prog, path, max_depth=64, opaque=None):
         self.prog = prog
         self.path = path
+        self.opaque = re.compile(opaque) if opaque else None
         self.sl = prog.slicer(path)
         self.body = prog.bodies[path]
         self.argc = self.body["argc"]
@@ -749,12 +755,31 @@ class Expr:
     def local(self, l, fields=(), depth=0):
         if depth > self.max_depth:
             return ("deep",)
+        key = (l, tuple(fields))
+        memo = self.__dict__.setdefault("_lmemo", {})
+        if key in memo:
+            return memo[key]
+        busy = self.__dict__.setdefault("_busy", set())
+        if key in busy:
+            return ("deep",)
+        busy.add(key)
+        try:
+            v = self._local(l, fields, depth)
+        finally:
+            busy.discard(key)
+        if not _has_deep(v):
+            memo[key] = v
+        return v
+
+    def _local(self, l, fields=(), depth=0):
         if 1 <= l <= self.argc and not [d for d in self.sl.defs.get(l, ()) if d[0] == "assign"]:
             return ("param", l, tuple(fields))
         defs = self.sl.defs.get(l, ())
         whole = []
         partial = []
         for d in defs:
+            if d[0] == "assign" and d[1]["rv"].get("k") == "setdiscr":
+                continue
             if d[0] == "assign" and d[1]["dst"]["p"] and any(isinstance(x, dict) and "f" in x for x in d[1]["dst"]["p"]):
                 partial.append(d)
             else:
@@ -776,7 +801,10 @@ class Expr:
             else:
                 t = d
                 if t["dst"]["l"] == l:
-                    es.append(("call", Program.callee_name(t), tuple(self.operand(a, depth + 1) for a in t["args"]), bid))
+                    if self.opaque is not None and self.opaque.search(Program.callee_name(t)):
+                        es.append(("call", Program.callee_name(t), (), bid))
+                    else:
+                        es.append(("call", Program.callee_name(t), tuple(self.operand(a, depth + 1) for a in t["args"]), bid))
                 else:
                     margs = []
                     for a in t["args"]:
@@ -825,6 +853,23 @@ class Expr:
         """expressions of the return value (one per definition of _0)"""
         e = self.local(0)
         return list(e[1]) if e[0] == "phi" else [e]
+
+
+def _has_deep(e, _seen=None):
+    """does the expression contain a truncation marker? (such results are not memoised)"""
+    if _seen is None:
+        _seen = set()
+    if not isinstance(e, tuple) or not e:
+        return False
+    if id(e) in _seen:
+        return False
+    _seen.add(id(e))
+    if e[0] == "deep":
+        return True
+    for x in e:
+        if isinstance(x, tuple) and _has_deep(x, _seen):
+            return True
+    return False
 
 
 def expr_walk(e, fn):
